@@ -266,9 +266,9 @@ class Scanner:
             if r[0] == 'call' and r[1] == S.R_NEW:
                 lo = self.V.F.try_fold(r[2][0]); hi = self.V.F.try_fold(r[2][1])
                 if lo and hi and lo[0] == 'int' and hi[0] == 'int':
-                    f = self.affine(x)
+                    f = self.affine(x, region=st['region'])
                     inside = ivl.intersect(f.cmp_region('Ge', lo[2]), f.cmp_region('Le', hi[2]))
-                    return inside if outcome else ivl.diff(self.dom, inside, self.tlo, self.thi)
+                    return inside if outcome else ivl.diff(st['region'], inside, self.tlo, self.thi)
             raise Unrecognised('membership test against a range that is not a table entry: %s' % show(cond))
         if cond[0] == 'bin' and cond[1] in MIRROR:
             op, a, b = cond[1], cond[2], cond[3]
@@ -288,13 +288,15 @@ class Scanner:
             c = self.V.F.try_fold(rhs)
             if c is None or c[0] != 'int':
                 raise Unrecognised('comparison with a non-constant: %s' % show(cond))
-            f = self.affine(lhs)
+            f = self.affine(lhs, region=st['region'])
             return f.cmp_region(op if outcome else NEG[op], c[2])
         raise Unrecognised('unclassified branch condition: %s' % show(cond))
 
-    def affine(self, t, panics=None):
+    def affine(self, t, panics=None, region=None):
+        """t as a piecewise-affine function of the input; region (an interval set) restricts the input first"""
         try:
-            return eval_affine(t, self.var, self.var_pa, self.V.F, self.pb, panics)
+            vp = self.var_pa if region is None else self.var_pa.restrict(region)
+            return eval_affine(t, self.var, vp, self.V.F, self.pb, panics)
         except NotAffine as e:
             raise Unrecognised('not a supported integer expression of the input (%s): %s' % (e, show(t)))
         except TooManyPieces:
@@ -352,10 +354,15 @@ class Scanner:
         consumed = st['idx'].get(local)
         if consumed is None and self.is_scan_header(site):
             # first-match scan: entry i is drawn last for the inputs that entries 0..i-1 did not accept
-            taken = []
+            taken = []          # kept sorted and normalised; entries of a well-formed table are disjoint, so the
+            import bisect       # subtraction below is the exception, found by an O(log k) overlap test
             for i, (lo, hi, off) in enumerate(es):
-                reg = ivl.diff(ivl.intersect(st['region'], [(lo, hi)]), taken, self.tlo, self.thi) if taken else ivl.intersect(st['region'], [(lo, hi)])
-                taken = ivl.union(taken, [(lo, hi)])
+                reg = ivl.clip(st['region'], lo, hi)
+                if taken and ivl.clip(taken, lo, hi):
+                    reg = ivl.diff(reg, taken, self.tlo, self.thi)
+                    taken = ivl.union(taken, [(lo, hi)])
+                else:
+                    bisect.insort(taken, (lo, hi))
                 if want in (None, 'Some') and reg:
                     s = self.fork(st); s['binds'][site] = SOME(self.entry_term(src, lo, hi, off)); s['idx'][local] = i + 1; s['region'] = reg
                     out.append(s)
@@ -413,7 +420,7 @@ class Scanner:
                 c = self.rewrite(cond, s)
                 if c[0] == 'ovf':
                     p2 = []
-                    self.affine(('bin', c[1] + '_checked', c[2], c[3]), p2)
+                    self.affine(('bin', c[1] + '_checked', c[2], c[3]), p2, region=s['region'])
                     ov = ivl.norm([iv for _, rg in p2 for iv in rg])
                     bad = ivl.intersect(s['region'], ov) if g[2] is False else ivl.diff(s['region'], ov, self.tlo, self.thi)
                     if bad:
@@ -453,7 +460,7 @@ class Scanner:
             for s in self.bind_all(g[1], st):
                 c = self.rewrite(g[1], s)
                 if mentions(c, self.var):
-                    f = self.affine(c)
+                    f = self.affine(c, region=s['region'])
                     hit = []
                     for v in g[2][1]:
                         hit = ivl.union(hit, f.cmp_region('Eq', v))
